@@ -8,10 +8,15 @@ from ..spec import model as M
 ORIGIN = dt.datetime(1, 1, 1)
 
 
-def dt_from_text(text, rng):
+def dt_from_text(text, rng, kind=None, over_precise=False):
     us = tsor.text_us(text)
     if us is None:
         return text
+    if over_precise and kind is not None and kind.get("constraint") == "exact" and kind.get("precision") in ("millisecond", "second") \
+            and rng.random() < 0.6:
+        # a value more precise than the slot keeps: the constructor truncates it, and the round trip must still hold
+        unit = 1000 if kind["precision"] == "millisecond" else 1000000
+        us = us - us % unit + rng.randrange(1, unit)
     p = tsor.parse_text(text)
     if p[2] > 6:
         return text          # sub-microsecond digits cannot be carried by datetime
@@ -31,20 +36,20 @@ def dt_from_text(text, rng):
         return naive.replace(tzinfo=dt.timezone.utc)
 
 
-def native_kind(m, kind, v, rng):
+def native_kind(m, kind, v, rng, over_precise=False):
     if kind is None:
         return v
     k = kind["k"]
     if k == "ts" and isinstance(v, str):
-        return dt_from_text(v, rng)
+        return dt_from_text(v, rng, kind, over_precise)
     if k == "list" and isinstance(v, list):
-        out = [native_kind(m, kind["of"], x, rng) for x in v]
+        out = [native_kind(m, kind["of"], x, rng, over_precise) for x in v]
         if len(out) == 1 and kind["of"]["k"] in ("string", "openvocab", "enum", "embedded", "ref") and rng.random() < 0.3 \
                 and not isinstance(out[0], dict):
             return out[0]                              # a single string / object where a list is accepted
         return out
     if k == "embedded" and isinstance(v, dict):
-        nv = native_table(m, m.embedded[kind["type"]], v, rng)
+        nv = native_table(m, m.embedded[kind["type"]], v, rng, over_precise)
         if rng.random() < 0.5:
             import stix2
             mod = stix2.v20 if m.version == "2.0" else stix2.v21
@@ -64,16 +69,16 @@ def native_kind(m, kind, v, rng):
     return v
 
 
-def native_table(m, tbl, o, rng):
+def native_table(m, tbl, o, rng, over_precise=False):
     by = tbl["by_name"]
-    return {n: native_kind(m, by.get(n), v, rng) for n, v in o.items()}
+    return {n: native_kind(m, by.get(n), v, rng, over_precise) for n, v in o.items()}
 
 
-def to_native(version, o, rng):
+def to_native(version, o, rng, over_precise=False):
     m = M.model(version)
     tbl = m.types.get(o.get("type"))
     if tbl is None:
         return dict(o)
     if o.get("type") == "bundle":
         return dict(o)
-    return native_table(m, tbl, o, rng)
+    return native_table(m, tbl, o, rng, over_precise)
